@@ -31,11 +31,26 @@ c44_item(probe(dq), r(O)) :-
     c44_chars([34,97,98,34,32,46], Chars),
     catch(( read_from_chars(Chars, T) -> O = ok(T) ; O = no ), B, O = ex(B)).
 c44_item(probe(oc), r(O)) :-
-    catch(( c44_cyclic -> O = yes ; O = no ), B, O = ex(B)).
+    % the cyclic binding is attempted twice: by an explicit =/2 and during head unification
+    % (p(B,B) against p(X, f(X))); both must behave as the flag says
+    c44_try(c44_cyclic, O1),
+    c44_try(c44_cyclic_head, O2),
+    (   c44_class(O1, C), c44_class(O2, C) -> O = O1
+    ;   O = differ(O1, O2)
+    ).
 c44_item(probe(unk), r(O)) :-
     catch(( c44_undefined_predicate_zz(1) -> O = yes ; O = no ), B, O = ex(B)).
 
 c44_cyclic :- X = f(X), nonvar(X).
+
+c44_pp(B, B).
+c44_cyclic_head :- c44_pp(X, f(X)), nonvar(X).
+
+c44_try(G, O) :- catch(( call(G) -> O = yes ; O = no ), B, O = ex(B)).
+
+c44_class(yes, yes).
+c44_class(no, no).
+c44_class(ex(_), ex).
 
 c44_chars([], []).
 c44_chars([C|Cs], [Ch|Chs]) :- char_code(Ch, C), c44_chars(Cs, Chs).
